@@ -17,7 +17,7 @@ CHECKS = ('c02',)
 
 def budget(tier):
     if tier == 'quick':
-        return {'shards': 16, 'examples': 40, 'steps': 20, 'wall': 240}
+        return {'shards': 16, 'examples': 80, 'steps': 20, 'wall': 240}
     return {'shards': 16, 'examples': 3000, 'steps': 30, 'wall': 2400}
 
 
